@@ -61,9 +61,9 @@ func mustWrite(p string, data string) {
 }
 
 var (
-	newsOnce sync.Once
-	newsText string
-	hashOnce sync.Once
+	newsOnce    sync.Once
+	newsText    string
+	hashOnce    sync.Once
 	emptyPwHash string
 )
 
@@ -123,7 +123,7 @@ func newWorld(requester, otherAccess hotline.AccessBitmap) (*world, error) {
 	w := &world{ts: ts}
 	r := ts.Root
 	mustWrite(filepath.Join(r, "afile.txt"), "file content")
-	for _, d := range []string{"adir", "Uploads", "Uploads/inner", "Drop Box", "plain", "movedest"} {
+	for _, d := range []string{"adir", "Uploads", "Uploads/inner", "Drop Box", "plain", "movedest", "My UPLOADS", "Old DROP Box"} {
 		if err := os.Mkdir(filepath.Join(r, d), 0755); err != nil {
 			ts.Close()
 			return nil, err
@@ -133,6 +133,8 @@ func newWorld(requester, otherAccess hotline.AccessBitmap) (*world, error) {
 	mustWrite(filepath.Join(r, "Drop Box", "secret.txt"), "secret")
 	mustWrite(filepath.Join(r, "Uploads", "taken.bin"), "taken")
 	mustWrite(filepath.Join(r, "plain", "p.txt"), "p")
+	mustWrite(filepath.Join(r, "My UPLOADS", "u.txt"), "u")
+	mustWrite(filepath.Join(r, "Old DROP Box", "hidden.txt"), "hidden")
 	// partial uploads left behind (resume targets)
 	mustWrite(filepath.Join(r, "plain", "partial.bin.incomplete"), "part")
 	mustWrite(filepath.Join(r, "Uploads", "partial.bin.incomplete"), "part")
@@ -247,6 +249,8 @@ type row struct {
 	wantName    string // anyName rows: the name asked for
 	fallback    string // anyName rows: the name that must stay / be used instead
 	delayed     bool   // the handler may start a delayed goroutine (checked again 3.3 s later)
+	rawPath     []byte // path-field variants: the raw field bytes (place cross-checked with the Lean model)
+	few         bool   // a short list of bitmaps around the row's privileges is enough
 	inert       bool   // the request names nothing that can be acted on: every requester gets an error reply, nothing changes
 	otherAccess []int  // bitmap of the other user's account
 	expect      string // with all privileges: "changed" | "data" | "reply" | "err" | "" (sanity of the row itself)
@@ -312,6 +316,27 @@ func byKindBits(kind string, fileBit, folderBit int) []int {
 }
 
 func itoa(i int) string { return fmt.Sprint(i) }
+
+// groundPlace: the kind of the folder a path field addresses, taken from where the real ReadPath says the request
+// acts (its last component: contains "drop box" / "upload" in any case; the root is plain).
+func groundPlace(raw []byte) string {
+	full, err := hotline.ReadPath("/R", raw, nil)
+	if err != nil {
+		return "badPath"
+	}
+	rel := strings.Trim(strings.TrimPrefix(filepath.Clean(full), "/R"), "/")
+	if rel == "" {
+		return "plain"
+	}
+	name := strings.ToLower(filepath.Base(rel))
+	switch {
+	case strings.Contains(name, "drop box"):
+		return "dropBox"
+	case strings.Contains(name, "upload"):
+		return "uploads"
+	}
+	return "plain"
+}
 
 func buildRows() []row {
 	var rows []row
@@ -441,6 +466,69 @@ func buildRows() []row {
 				build: func(w *world) hotline.Transaction { return tr(hotline.TranGetFileNameList, pf()...) }})
 		}
 	}
+	// path-field variants: the folder kind must be judged on the folder the request ACTS ON (all items joined and
+	// cleaned, as ReadPath does), not on the last raw item: items with embedded separators, ".", "..", "" before /
+	// after the special folder, mixed case, declared item count smaller than the items present.
+	rawItems := func(count int, items ...string) []byte {
+		b := fpath(items...)
+		copy(b, be16(count))
+		return b
+	}
+	for _, v := range []struct {
+		name string
+		raw  []byte
+	}{
+		{"uploads-dotdot-plain", fpath("Uploads/../plain")},
+		{"plain-dotdot-dropbox", fpath("plain/../Drop Box")},
+		{"dropbox-dot", fpath("Drop Box", ".")},
+		{"dropbox-x-dotdot", fpath("Drop Box", "x", "..")},
+		{"uploads-empty", fpath("Uploads", "")},
+		{"uploads-dotdot", fpath("Uploads", "..")},
+		{"plain-dotdot-uploads", fpath("plain", "..", "Uploads")},
+		{"mixedcase-uploads", fpath("My UPLOADS")},
+		{"mixedcase-dropbox", fpath("Old DROP Box")},
+		{"slash-item-inner", fpath("Uploads/inner")},
+		{"adir-dotdot-dropbox-dot", fpath("adir/../Drop Box/.")},
+		{"dotdot-dropbox", fpath("..", "Drop Box")},
+		{"dropbox-dotdot-item", fpath("Drop Box/..")},
+		{"dropbox-dotdot-plain", fpath("Drop Box", "..", "plain")},
+		{"chain", fpath("Uploads/../Drop Box/../plain")},
+		{"dropbox-trailing-slash", fpath("Drop Box/")},
+		{"dot-uploads-dot", fpath(".", "Uploads", ".")},
+		{"dropbox-dotdot-uploads-item", fpath("Drop Box/../Uploads")},
+		{"count0-dropbox", rawItems(0, "Drop Box")},
+		{"count1-plain-dropbox", rawItems(1, "plain", "Drop Box")},
+		{"count1-uploads-dotdot-plain", rawItems(1, "Uploads", "..", "plain")},
+		{"count2-dropbox-dot-plain", rawItems(2, "Drop Box", ".", "plain")},
+	} {
+		v := v
+		model := groundPlace(v.raw)
+		g1, g38, g30 := []int{1}, []int{38}, []int(nil)
+		if model == "plain" {
+			g1, g38 = []int{1, 25}, []int{38, 25}
+		}
+		if model == "dropBox" {
+			g30 = []int{30}
+		}
+		e, el := "changed", "reply"
+		if model == "badPath" {
+			e, el = "", ""
+		}
+		add(row{name: "uploadFile/path/" + v.name, tokens: []string{"uploadFile", model, "0"}, governing: g1, expect: e, uploadName: "new.bin", rawPath: v.raw, few: true,
+			build: func(w *world) hotline.Transaction {
+				return tr(hotline.TranUploadFile, fld(hotline.FieldFilePath, v.raw), fld(hotline.FieldFileName, []byte("new.bin")), fld(hotline.FieldTransferSize, []byte{0, 0, 0, 9}))
+			}})
+		add(row{name: "uploadFldr/path/" + v.name, tokens: []string{"uploadFldr", model}, governing: g38, expect: e, uploadName: "newdir", rawPath: v.raw, few: true,
+			build: func(w *world) hotline.Transaction {
+				return tr(hotline.TranUploadFldr, fld(hotline.FieldFilePath, v.raw), fld(hotline.FieldFileName, []byte("newdir")), fld(hotline.FieldTransferSize, []byte{0, 0, 0, 9}), fld(hotline.FieldFolderItemCount, []byte{0, 1}))
+			}})
+		if model != "badPath" {
+			add(row{name: "getFileNameList/path/" + v.name, tokens: []string{"getFileNameList", model}, governing: g30, expect: el, rawPath: v.raw, few: true,
+				build: func(w *world) hotline.Transaction {
+					return tr(hotline.TranGetFileNameList, fld(hotline.FieldFilePath, v.raw))
+				}})
+		}
+	}
 	// resuming a partial upload (field 204 present, `<name>.incomplete` exists): same place rule as a fresh upload
 	for _, p := range []place{{"plain", "plain", fpath("plain")}, {"root", "plain", nil}, {"uploads", "uploads", fpath("Uploads")}} {
 		p := p
@@ -495,9 +583,13 @@ func buildRows() []row {
 				fld(hotline.FieldUserPassword, []byte{0}), fld(hotline.FieldUserAccess, zero8))
 		}})
 	add(row{name: "getUser/exists", tokens: []string{"getUser", "1"}, governing: []int{16}, expect: "data",
-		build: func(w *world) hotline.Transaction { return tr(hotline.TranGetUser, fld(hotline.FieldUserLogin, []byte("other"))) }})
+		build: func(w *world) hotline.Transaction {
+			return tr(hotline.TranGetUser, fld(hotline.FieldUserLogin, []byte("other")))
+		}})
 	add(row{name: "getUser/missing", tokens: []string{"getUser", "0"}, governing: []int{16}, expect: "err",
-		build: func(w *world) hotline.Transaction { return tr(hotline.TranGetUser, fld(hotline.FieldUserLogin, []byte("nobody"))) }})
+		build: func(w *world) hotline.Transaction {
+			return tr(hotline.TranGetUser, fld(hotline.FieldUserLogin, []byte("nobody")))
+		}})
 	add(row{name: "listUsers", tokens: []string{"listUsers"}, governing: []int{16}, expect: "data",
 		build: func(w *world) hotline.Transaction { return tr(hotline.TranListUsers) }})
 	acctGone := func(l string) func(w *world) bool { return func(w *world) bool { return w.ts.Acct.Get(l) == nil } }
@@ -537,7 +629,9 @@ func buildRows() []row {
 
 	// ---- communication
 	add(row{name: "chatSend/public", tokens: []string{"chatSend"}, governing: []int{10},
-		build: func(w *world) hotline.Transaction { return tr(hotline.TranChatSend, fld(hotline.FieldData, []byte("hello"))) }})
+		build: func(w *world) hotline.Transaction {
+			return tr(hotline.TranChatSend, fld(hotline.FieldData, []byte("hello")))
+		}})
 	add(row{name: "chatSend/private", tokens: []string{"chatSend"}, governing: []int{10},
 		build: func(w *world) hotline.Transaction {
 			return tr(hotline.TranChatSend, fld(hotline.FieldData, []byte("hello")), fld(hotline.FieldChatID, w.chat[:]))
@@ -555,25 +649,37 @@ func buildRows() []row {
 			return tr(hotline.TranSendInstantMsg, fld(hotline.FieldData, []byte("psst")), fld(hotline.FieldUserID, []byte{0x7f, 0x7f}))
 		}})
 	add(row{name: "inviteNewChat", tokens: []string{"inviteNewChat"}, governing: []int{11},
-		build: func(w *world) hotline.Transaction { return tr(hotline.TranInviteNewChat, fld(hotline.FieldUserID, uid(w.oc))) }})
+		build: func(w *world) hotline.Transaction {
+			return tr(hotline.TranInviteNewChat, fld(hotline.FieldUserID, uid(w.oc)))
+		}})
 	add(row{name: "inviteToChat", tokens: []string{"inviteToChat"}, governing: []int{11},
 		build: func(w *world) hotline.Transaction {
 			return tr(hotline.TranInviteToChat, fld(hotline.FieldUserID, uid(w.by)), fld(hotline.FieldChatID, w.chat[:]))
 		}})
 	add(row{name: "joinChat", tokens: []string{"joinChat"}, expect: "data",
-		build: func(w *world) hotline.Transaction { return tr(hotline.TranJoinChat, fld(hotline.FieldChatID, w.chat[:])) }})
+		build: func(w *world) hotline.Transaction {
+			return tr(hotline.TranJoinChat, fld(hotline.FieldChatID, w.chat[:]))
+		}})
 	add(row{name: "leaveChat", tokens: []string{"leaveChat"}, expect: "changed",
-		build: func(w *world) hotline.Transaction { return tr(hotline.TranLeaveChat, fld(hotline.FieldChatID, w.chat[:])) }})
+		build: func(w *world) hotline.Transaction {
+			return tr(hotline.TranLeaveChat, fld(hotline.FieldChatID, w.chat[:]))
+		}})
 	add(row{name: "rejectChatInvite", tokens: []string{"rejectChatInvite"},
-		build: func(w *world) hotline.Transaction { return tr(hotline.TranRejectChatInvite, fld(hotline.FieldChatID, w.chat[:])) }})
+		build: func(w *world) hotline.Transaction {
+			return tr(hotline.TranRejectChatInvite, fld(hotline.FieldChatID, w.chat[:]))
+		}})
 	add(row{name: "setChatSubject", tokens: []string{"setChatSubject"}, expect: "changed",
 		build: func(w *world) hotline.Transaction {
 			return tr(hotline.TranSetChatSubject, fld(hotline.FieldChatID, w.chat[:]), fld(hotline.FieldChatSubject, []byte("new subject")))
 		}})
 	add(row{name: "userBroadcast", tokens: []string{"userBroadcast"}, governing: []int{32},
-		build: func(w *world) hotline.Transaction { return tr(hotline.TranUserBroadcast, fld(hotline.FieldData, []byte("attention"))) }})
+		build: func(w *world) hotline.Transaction {
+			return tr(hotline.TranUserBroadcast, fld(hotline.FieldData, []byte("attention")))
+		}})
 	add(row{name: "getClientInfoText/exists", tokens: []string{"getClientInfoText", "1"}, governing: []int{24}, expect: "data",
-		build: func(w *world) hotline.Transaction { return tr(hotline.TranGetClientInfoText, fld(hotline.FieldUserID, uid(w.oc))) }})
+		build: func(w *world) hotline.Transaction {
+			return tr(hotline.TranGetClientInfoText, fld(hotline.FieldUserID, uid(w.oc)))
+		}})
 	add(row{name: "getClientInfoText/missing", tokens: []string{"getClientInfoText", "0"}, governing: []int{24}, expect: "err",
 		build: func(w *world) hotline.Transaction {
 			return tr(hotline.TranGetClientInfoText, fld(hotline.FieldUserID, []byte{0x7f, 0x7f}))
@@ -627,7 +733,9 @@ func buildRows() []row {
 
 	// ---- news
 	add(row{name: "oldPostNews", tokens: []string{"oldPostNews"}, governing: []int{21}, expect: "changed",
-		build: func(w *world) hotline.Transaction { return tr(hotline.TranOldPostNews, fld(hotline.FieldData, []byte("a post"))) }})
+		build: func(w *world) hotline.Transaction {
+			return tr(hotline.TranOldPostNews, fld(hotline.FieldData, []byte("a post")))
+		}})
 	add(row{name: "postNewsArt", tokens: []string{"postNewsArt"}, governing: []int{21}, expect: "changed",
 		build: func(w *world) hotline.Transaction {
 			return tr(hotline.TranPostNewsArt, fld(hotline.FieldNewsPath, newsPath("TopCat")), fld(hotline.FieldNewsArtID, []byte{0, 0, 0, 0}),
@@ -654,9 +762,13 @@ func buildRows() []row {
 			return tr(hotline.TranDelNewsArt, fld(hotline.FieldNewsPath, newsPath("TopCat")), fld(hotline.FieldNewsArtID, []byte{0, 0, 0, 1}))
 		}})
 	add(row{name: "newNewsCat", tokens: []string{"newNewsCat"}, governing: []int{34}, expect: "changed",
-		build: func(w *world) hotline.Transaction { return tr(hotline.TranNewNewsCat, fld(hotline.FieldNewsCatName, []byte("NewCat"))) }})
+		build: func(w *world) hotline.Transaction {
+			return tr(hotline.TranNewNewsCat, fld(hotline.FieldNewsCatName, []byte("NewCat")))
+		}})
 	add(row{name: "newNewsFldr", tokens: []string{"newNewsFldr"}, governing: []int{36}, expect: "changed",
-		build: func(w *world) hotline.Transaction { return tr(hotline.TranNewNewsFldr, fld(hotline.FieldFileName, []byte("NewBundle"))) }})
+		build: func(w *world) hotline.Transaction {
+			return tr(hotline.TranNewNewsFldr, fld(hotline.FieldFileName, []byte("NewBundle")))
+		}})
 	for _, k := range []struct {
 		name, model string
 		path        []byte
@@ -1013,6 +1125,15 @@ func runRow(c *Case, r *row, bitmaps []hotline.AccessBitmap) {
 		c.Note("lean", got)
 		c.Disagree("governing-table-"+r.name, "the harness's and Lean's governing-privilege tables differ for this request class")
 	}
+	if r.rawPath != nil {
+		if got := c.AskS("placeraw", hx(r.rawPath)); got != r.tokens[1] {
+			c.Note("row", r.name)
+			c.Note("path_field", hx(r.rawPath))
+			c.Note("acts_on_kind", r.tokens[1])
+			c.Note("lean", got)
+			c.Disagree("place-model-"+r.name, "the Lean model classifies the folder this path field addresses differently from where ReadPath acts")
+		}
+	}
 	var pending []*invocation
 	var mu sync.Mutex
 	if r.delayed {
@@ -1058,7 +1179,7 @@ func c05Rows() []row {
 func init() {
 	props["C05"] = func(x *Ctx) {
 		rows := c05Rows()
-		x.rule = fmt.Sprintf("decision table: %d rows (all 43 registered handlers × target kinds file/folder/nested/alias to a file/alias to a folder/missing/root/bad path, category/bundle at depth 1..4/missing, upload folder/drop box/plain/root/nested, existing/missing account or user, protected/unprotected target × ban options, field-presence variants, multi-effect requests) × requester bitmaps (all-zero, all ones, each single privilege 0..40, all-but-one for every privilege governing a row of the same transaction type; thorough tier: all-but-one for each of 0..40 = 84 bitmaps); every invocation on its own real server with a file tree, account dir, threaded news, message board, ban file, 3 clients, 1 private chat; full before/after snapshot. plus a family with three sessions on one account whose privilege is revoked / granted by an administrator's set-user before the request comes from the 1st / 2nd / 3rd session; thorough adds random bitmaps. non-trivial = invocation of a row that has a governing privilege (the handler reaches a guard); distinct = distinct (row, bitmap)", len(rows))
+		x.rule = fmt.Sprintf("decision table: %d rows (all 43 registered handlers × target kinds file/folder/nested/alias to a file/alias to a folder/missing/root/bad path, category/bundle at depth 1..4/missing, upload folder/drop box/plain/root/nested incl. path fields with embedded separators, dot and dot-dot items, empty items, mixed case and under-declared item counts, existing/missing account or user, protected/unprotected target × ban options, field-presence variants, multi-effect requests) × requester bitmaps (all-zero, all ones, each single privilege 0..40, all-but-one for every privilege governing a row of the same transaction type; thorough tier: all-but-one for each of 0..40 = 84 bitmaps); every invocation on its own real server with a file tree, account dir, threaded news, message board, ban file, 3 clients, 1 private chat; full before/after snapshot. plus a family with three sessions on one account whose privilege is revoked / granted by an administrator's set-user before the request comes from the 1st / 2nd / 3rd session; thorough adds random bitmaps. non-trivial = invocation of a row that has a governing privilege (the handler reaches a guard); distinct = distinct (row, bitmap)", len(rows))
 		x.assume = []string{
 			"direct mode: handlers are called with ClientConns built like handleNewConnection builds them; the requester's in-memory bitmap is set directly",
 			"governing privileges per row are written in harness/c05.go from the property statement and cross-checked with Spec.governing",
@@ -1086,6 +1207,13 @@ func init() {
 			}
 		}
 		rowBitmaps := func(r *row) []hotline.AccessBitmap {
+			if r.few && x.Tier != "thorough" {
+				l := []hotline.AccessBitmap{{}, allOnes(), bmOf(1, 25), bmOf(38, 25), bmOf(1, 38, 30), bmOf(25, 30)}
+				for _, g := range []int{1, 25, 30, 38} {
+					l = append(l, bmOf(g), hotline.AccessBitmap(withoutBit(allOnes(), g)))
+				}
+				return l
+			}
 			if x.Tier == "thorough" {
 				return tb
 			}
